@@ -1605,7 +1605,10 @@ class ArgKeysStream(Stream):
                 return Failure("extra-args-outcome-differs",
                                f"{what}: memoizing instance {got!r}, fresh plain mapper {ref!r}", pl)
             if got[0] != "ok":
-                continue
+                # both raised the same: a mapper that raised in mid-traversal is left in an
+                # intermediate state (part of the aborted call is memoized); like a counter that
+                # raised it is discarded, the history ends here
+                break
             same = top_eq(e, got[1], ref[1]) and (kind != "combine" or typed_eq(got[1], ref[1]))
             if not same:
                 rel, j = self.blame_answer(
